@@ -1314,11 +1314,13 @@ class Timezone(Component):
             offset_from = offset_to
             end = start
             offset_to = end.utcoffset()
+            # a zone can change its name or its daylight saving state and keep its offset
+            observance = (offset_to, end.tzname(), end.dst())
             for add_offset in cls._from_tzinfo_skip_search:
                 last_end = end  # we need to save this as we might be left and right of the time change
                 end = normalize(end + add_offset)
                 try:
-                    while end.utcoffset() == offset_to:
+                    while (end.utcoffset(), end.tzname(), end.dst()) == observance:
                         last_end = end
                         end = normalize(end + add_offset)
                 except OverflowError:
